@@ -126,6 +126,7 @@ MUTANTS = [
     ("C13", "copy_aliases_dict", G + "geometric/multi_image.py", "        self.data = {key: image_block for key, image_block in data.items()}\n", "        self.data = data\n", "the constructor keeps the caller's dict: copy()/concat() alias and mutate their source"),
     ("C04", "five_sided_same", G + "geometric/functional_geometric_image.py", "    padding_f = lambda M, dilation, torus: ((((M - 1) // 2) * dilation),) * 2 if torus else (0, 0)", "    padding_f = lambda M, dilation, torus: (((min(M, 4) - 1) // 2) * dilation,) * 2 if torus else (0, 0)", "wrap halo too small for filters wider than 3"),
     ("C08", "H_dataclass_module", G + "ml/layers.py", "    def __init__(self: Self, patch_len: int, use_norm: bool = True) -> None:\n        \"\"\"\n        Constructor for MaxNormPool.\n\n        args:\n            patch_len: sidelength of the patch\n            use_norm: whether to use norm to calculate the max\n        \"\"\"\n        self.patch_len = patch_len\n        self.use_norm = use_norm\n", "", "harmless: MaxNormPool as a dataclass-style equinox module (no hand-written __init__)"),
+    ("C19", "H_renamed_fields", G + "ml/stopping_conditions.py", "ALL:epochs_since_best", "n_bad_epochs", "harmless: the counter field is renamed"),
     ("C19", "le", G + "ml/stopping_conditions.py", "if train_loss < (self.best_train_loss - self.min_delta):", "if train_loss <= (self.best_train_loss - self.min_delta):", "non-strict improvement test"),
     ("C19", "ge_patience", G + "ml/stopping_conditions.py", "        return self.epochs_since_best > self.patience\n\n\nclass ValLoss", "        return self.epochs_since_best >= self.patience\n\n\nclass ValLoss", "stops one epoch early"),
     ("C19", "no_reset", G + "ml/stopping_conditions.py", "            self.best_model = model\n            self.epochs_since_best = 0\n\n            if self.verbose >= 1:\n                self.log_status(current_epoch, train_loss, val_loss, epoch_time)\n        else:\n            self.epochs_since_best += 1\n\n        return self.epochs_since_best > self.patience\n\n\nclass ValLoss", "            self.best_model = model\n\n            if self.verbose >= 1:\n                self.log_status(current_epoch, train_loss, val_loss, epoch_time)\n        else:\n            self.epochs_since_best += 1\n\n        return self.epochs_since_best > self.patience\n\n\nclass ValLoss", "counter not reset on improvement"),
